@@ -84,11 +84,21 @@ class Run:
         self.prob = Fraction(1)
         self.uniforms = []
         self.cut = False
+        self.scripted = 0      # > 0 inside scripted_prefix(): choices follow a fixed private stream, unrecorded
+        self._script_rng = None
 
     def choose(self, n, probs=None, label=""):
         """Choice point with n alternatives; probs = list of exact probabilities or None (uniform)."""
         if n <= 0:
             raise IndexError("choice from an empty population")
+        if self.scripted:
+            # a deterministic warm-up segment of the history (see scripted_prefix): one fixed schedule, not explored
+            ok = list(range(n)) if probs is None else [k for k in range(n) if probs[k] > 0]
+            if not ok:
+                raise ValueError("Total of weights must be greater than zero")
+            if self._script_rng is None:
+                self._script_rng = _ORIG["Random"](20240607)   # private Mersenne Twister, re-created per execution
+            return ok[self._script_rng.randrange(len(ok))]
         i = len(self.points)
         if probs is None:
             allowed = None
@@ -325,7 +335,7 @@ def _d_choice(seq):
     n = len(seq)
     if n == 0:
         raise IndexError("Cannot choose from an empty sequence")
-    if run.observer is not None:
+    if run.observer is not None and not run.scripted:
         run.observer("choice", seq)
     k = run.choose(n, None, "choice")
     run.calls.append(("choice", k))
@@ -339,7 +349,7 @@ def _d_randrange(start, stop=None, step=1):
     rng = range(start) if stop is None else range(start, stop, step)
     if len(rng) == 0:
         raise ValueError("empty range for randrange()")
-    if run.observer is not None:
+    if run.observer is not None and not run.scripted:
         run.observer("randrange", rng)
     k = run.choose(len(rng), None, "randrange")
     run.calls.append(("randrange", rng[k]))
@@ -490,8 +500,42 @@ def _d_uniform(a, b):
     raise UnsupportedRandomUse("random.uniform is not modelled by the seam")
 
 
+RESEEDS = []   # calls of random.seed / random.setstate made by library code (the library must not re-seed the process)
+
+
+def _library_caller():
+    f = sys._getframe(2)
+    mod = f.f_globals.get("__name__", "")
+    if mod == "gcmpy" or mod.startswith("gcmpy."):
+        return f"{mod}:{f.f_lineno}"
+    return None
+
+
+class scripted_prefix:
+    """Context manager: random calls made inside it (by the code under test) follow ONE fixed pseudo-random schedule
+    that is identical in every execution, create no choice points and are not observed.  Used to put an object into
+    a non-initial state (e.g. one earlier rewire() call) before the explored call."""
+
+    def __enter__(self):
+        if _ACTIVE is not None:
+            _ACTIVE.scripted += 1
+        return self
+
+    def __exit__(self, *exc):
+        if _ACTIVE is not None:
+            _ACTIVE.scripted -= 1
+        return False
+
+
 def _trap(name, orig):
     def trapped(*a, **k):
+        if name in ("seed", "setstate"):
+            who = _library_caller()
+            if who is not None:
+                # recorded, not raised: the property checks (C03) report it; the explorer's choices do not depend
+                # on the generator state, so the exploration itself is unaffected
+                RESEEDS.append(f"random.{name}{a!r} called from {who}")
+                return None if _ACTIVE is not None else orig(*a, **k)
         if _ACTIVE is not None:
             raise UncontrolledNondeterminism(f"random.{name} called during an exploration")
         return orig(*a, **k)
@@ -520,6 +564,7 @@ def install():
             setattr(_random, name, _trap(name, getattr(_random, name)))
 
     _R, _SR = _random.Random, _random.SystemRandom
+    _ORIG["Random"] = _R
 
     class Random(_R):
         def __init__(self, *a, **k):
